@@ -489,7 +489,7 @@ func buildFieldType(ww *conversionVisitor, node sourcewalk.FieldNode) (*descript
 				}
 
 				if st.Integer.Rules.Maximum != nil {
-					if st.Integer.Rules.ExclusiveMaximum != nil {
+					if st.Integer.Rules.ExclusiveMaximum == nil || !*st.Integer.Rules.ExclusiveMaximum {
 						rules.GetInt32().LessThan = &validate.Int32Rules_Lte{
 							Lte: int32(*st.Integer.Rules.Maximum),
 						}
@@ -501,7 +501,7 @@ func buildFieldType(ww *conversionVisitor, node sourcewalk.FieldNode) (*descript
 				}
 
 				if st.Integer.Rules.Minimum != nil {
-					if st.Integer.Rules.ExclusiveMinimum != nil {
+					if st.Integer.Rules.ExclusiveMinimum == nil || !*st.Integer.Rules.ExclusiveMinimum {
 						rules.GetInt32().GreaterThan = &validate.Int32Rules_Gte{
 							Gte: int32(*st.Integer.Rules.Minimum),
 						}
@@ -518,7 +518,7 @@ func buildFieldType(ww *conversionVisitor, node sourcewalk.FieldNode) (*descript
 				}
 
 				if st.Integer.Rules.Maximum != nil {
-					if st.Integer.Rules.ExclusiveMaximum != nil {
+					if st.Integer.Rules.ExclusiveMaximum == nil || !*st.Integer.Rules.ExclusiveMaximum {
 						rules.GetInt64().LessThan = &validate.Int64Rules_Lte{
 							Lte: *st.Integer.Rules.Maximum,
 						}
@@ -530,7 +530,7 @@ func buildFieldType(ww *conversionVisitor, node sourcewalk.FieldNode) (*descript
 				}
 
 				if st.Integer.Rules.Minimum != nil {
-					if st.Integer.Rules.ExclusiveMinimum != nil {
+					if st.Integer.Rules.ExclusiveMinimum == nil || !*st.Integer.Rules.ExclusiveMinimum {
 						rules.GetInt64().GreaterThan = &validate.Int64Rules_Gte{
 							Gte: *st.Integer.Rules.Minimum,
 						}
@@ -547,7 +547,7 @@ func buildFieldType(ww *conversionVisitor, node sourcewalk.FieldNode) (*descript
 				}
 
 				if st.Integer.Rules.Maximum != nil {
-					if st.Integer.Rules.ExclusiveMaximum != nil {
+					if st.Integer.Rules.ExclusiveMaximum == nil || !*st.Integer.Rules.ExclusiveMaximum {
 						rules.GetUint32().LessThan = &validate.UInt32Rules_Lte{
 							Lte: uint32(*st.Integer.Rules.Maximum),
 						}
@@ -559,7 +559,7 @@ func buildFieldType(ww *conversionVisitor, node sourcewalk.FieldNode) (*descript
 				}
 
 				if st.Integer.Rules.Minimum != nil {
-					if st.Integer.Rules.ExclusiveMinimum != nil {
+					if st.Integer.Rules.ExclusiveMinimum == nil || !*st.Integer.Rules.ExclusiveMinimum {
 						rules.GetUint32().GreaterThan = &validate.UInt32Rules_Gte{
 							Gte: uint32(*st.Integer.Rules.Minimum),
 						}
@@ -576,7 +576,7 @@ func buildFieldType(ww *conversionVisitor, node sourcewalk.FieldNode) (*descript
 				}
 
 				if st.Integer.Rules.Maximum != nil {
-					if st.Integer.Rules.ExclusiveMaximum != nil {
+					if st.Integer.Rules.ExclusiveMaximum == nil || !*st.Integer.Rules.ExclusiveMaximum {
 						rules.GetUint64().LessThan = &validate.UInt64Rules_Lte{
 							Lte: uint64(*st.Integer.Rules.Maximum),
 						}
@@ -588,7 +588,7 @@ func buildFieldType(ww *conversionVisitor, node sourcewalk.FieldNode) (*descript
 				}
 
 				if st.Integer.Rules.Minimum != nil {
-					if st.Integer.Rules.ExclusiveMinimum != nil {
+					if st.Integer.Rules.ExclusiveMinimum == nil || !*st.Integer.Rules.ExclusiveMinimum {
 						rules.GetUint64().GreaterThan = &validate.UInt64Rules_Gte{
 							Gte: uint64(*st.Integer.Rules.Minimum),
 						}
